@@ -164,9 +164,21 @@ def check_multi_send(msgs):
     handed = {}  # index -> hand-over time
 
     class Clock(H.SteppingTime):
+        reads = 0
+
         def sleep(self, dt):
+            self.reads = 0
             super().sleep(dt)
             hand_over()
+
+        def time(self):
+            # a loop that waits by other means than this module's sleep (e.g. on an event with a time-out) would never
+            # see time pass here: after many reads without a sleep every further read lets 10 ms pass
+            self.reads += 1
+            if self.reads > 200:  # noqa: PLR2004
+                self.now += 0.01
+                hand_over()
+            return self.now
 
     clock = Clock(1000.0)
 
